@@ -17,7 +17,7 @@ ASSUMPTIONS = ["stub signers whose signature is a keyed hash of the token stand 
                "a raising auth callback propagates; only `available == False` is demanded then", "auth_timeout_s=None is exercised only with a device that answers"]
 SHARDS = {"quick": 8, "thorough": 16}
 TIME_BUDGET = {"quick": 60, "thorough": 600}
-FLOORS = {"quick": {"signatures_checked": 500, "pubkey_offers": 100, "connects": 800, "distinct": 300}, "thorough": {"signatures_checked": 5000, "connects": 8000}}
+FLOORS = {"quick": {"signatures_checked": 500, "pubkey_offers": 100, "connects": 800, "distinct": 300, "rechallenges_after_pubkey": 50}, "thorough": {"signatures_checked": 5000, "connects": 8000}}
 EXHAUSTIVE = {"quick": False, "thorough": True}
 
 MAXDATAS = [4096, 8192, 65536, 1024 * 1024, 5000]
@@ -64,6 +64,9 @@ def configs():
                         if cb != "none" and oc in ("noauth", "challenge-nokeys"):
                             continue
                         out.append({"nkeys": nkeys, "outcome": oc, "bad": bad, "cb": cb})
+                        if oc in ("pubkey", "never") and cb != "raise":
+                            # the device re-issues a challenge after it received the public key (adbd while the user has not confirmed yet)
+                            out.append({"nkeys": nkeys, "outcome": oc, "bad": bad, "cb": cb, "rechal": 1 + (nkeys + (bad or 0)) % 2})
     return out
 
 
@@ -111,7 +114,7 @@ def one_connect(sess, cfg, maxdata, strays, stats, rng, real_keys=None):
     delay = rng.choice([0.0, 0.5, 3.0])
     auth_timeout = rng.choice([5.0, 10.0, 0.7]) if oc != "pubkey" else rng.choice([5.0, 10.0])
     sim.auth = simdev.AuthPlan(require=(oc != "noauth"), verify=verify, accept_pubkey=(oc == "pubkey"), pubkey_delay=delay if oc == "pubkey" else 0.0,
-                               bad_challenge_at=cfg["bad"], strays=STRAYS[strays], challenge_arg0=rng.choice([0, 2, 3, 7]))
+                               bad_challenge_at=cfg["bad"], strays=STRAYS[strays], challenge_arg0=rng.choice([0, 2, 3, 7]), rechallenge_after_pubkey=cfg.get("rechal", 0))
     sim.maxdata = maxdata
     sim.silent = False
     cb_calls = []
@@ -135,6 +138,7 @@ def one_connect(sess, cfg, maxdata, strays, stats, rng, real_keys=None):
     events = [e for e in sim.auth_log[nauth:]]
     # ---------------------------------------------------------------- the model of the expected host behaviour
     exp = [("CNXN", wire.A_VERSION, wire.HOST_MAXDATA, b"host::" + b"verif" + b"\0")]
+    stats["rechallenges_after_pubkey"] += sum(1 for e in events if e[0] == "dev_rechallenge")
     tokens = [e[3] for e in events if e[0] == "dev_challenge"]
     challenge_arg0 = [e[2] for e in events if e[0] == "dev_challenge"]
     result = None
@@ -171,7 +175,7 @@ def one_connect(sess, cfg, maxdata, strays, stats, rng, real_keys=None):
                 else:
                     result = ("timeout", None)
     # ---------------------------------------------------------------- compare
-    where = "connect(%s keys=%d bad=%s cb=%s maxdata=%d strays=%d)" % (oc, nkeys, cfg["bad"], cfg["cb"], maxdata, strays)
+    where = "connect(%s keys=%d bad=%s cb=%s maxdata=%d strays=%d rechallenges-after-pubkey=%d)" % (oc, nkeys, cfg["bad"], cfg["cb"], maxdata, strays, cfg.get("rechal", 0))
     got = [(p.cmd, p.arg0, p.arg1, bytes(p.payload)) for p in pkts]
     ok_seq = len(got) == len(exp) and all(g[:3] == e[:3] and (e[3] is None or g[3] == e[3]) for g, e in zip(got, exp))
     if not ok_seq:
@@ -270,7 +274,7 @@ def make_real_keys(n):
 
 def run_case(case):
     rng = gen.rng_for("C05", case["seed"])
-    stats = {"connects": 0, "signatures_checked": 0, "pubkey_offers": 0, "auth_timeout_reads": 0, "second_connects": 0, "pushes_after_connect": 0, "real_rsa_cases": 0}
+    stats = {"connects": 0, "signatures_checked": 0, "pubkey_offers": 0, "auth_timeout_reads": 0, "second_connects": 0, "pushes_after_connect": 0, "real_rsa_cases": 0, "rechallenges_after_pubkey": 0}
     sim = simdev.SimDevice(rng=gen.rng_for("C05sim", case["seed"]), maxdata=case["maxdata"], remote_ids="random")
     sess = session.Session(case["impl"], sim=sim)
     viol = []
@@ -301,7 +305,7 @@ def run_case(case):
         c = case["first"]
         sig = None
         if c["outcome"] != "noauth":
-            sig = "%s|%d|%s|%s|%s|%d|%d|%s" % (case["impl"], c["nkeys"], c["outcome"], c["bad"], c["cb"], case["maxdata"], case["strays"], bool(case.get("second")))
+            sig = "%s|%d|%s|%s|%s|%d|%d|%s|%s" % (case["impl"], c["nkeys"], c["outcome"], c["bad"], c["cb"], case["maxdata"], case["strays"], bool(case.get("second")), c.get("rechal", 0))
         sample = None
         if case["seed"].endswith(":7") or case["seed"].endswith(":r0"):
             sample = {"case": case, "host_packets": [p.brief(16) for (_, p) in sim.host_log[:8]], "result": out.brief(80)}
